@@ -700,6 +700,12 @@ func caseSequence() {
 				caseOffsetOn(w.cur, w.view, " on the harness's reused buffer"+w.history())
 				w.log = append(w.log, fmt.Sprintf("CalcImageOffset(buffer holding image #%d, ...)", w.curIx))
 				continue
+			case 6, 7:
+				// the validator on the refilled buffer, the manifest still as the last image left it
+				if !w.bigSegs() {
+					w.opMatch()
+					continue
+				}
 			}
 		}
 		im := w.cur
